@@ -162,7 +162,8 @@ class Driver:
         self.world = world
         self.types = list(types)
         self.decodable = list(decodable)
-        self.tdf = Tdf(path)
+        made = getattr(world, "made_by_new", None)
+        self.tdf = made if isinstance(made, Tdf) else Tdf(path)
         # a second object on the same path: the two take turns, context by context (an object that
         # was used before must not rely on what it parsed in its earlier contexts)
         self.other = Tdf(path)
